@@ -956,8 +956,8 @@ class bpch1(bpch_base):
                     myl[9:49].strip(),
                     dict(offset=int(myl[:8]), desc=myl[50:].strip())
                 )
-                for myl in diaginfo.read().strip().split('\n')
-                if myl[0] != '#'
+                for myl in diaginfo.read().split('\n')
+                if myl.strip() != '' and myl[0] != '#'
             ])
         else:
             warn('Reading file without diaginfo.dat loses descriptive ' +
